@@ -26,6 +26,13 @@ N  NESTED PROGRAMS inside ONE top-level invocation (round 7, ContextInvoke!ProgI
    enumerates the nest cases (NCASE) with the demanded outcome of every step; V: random programs are
    recorded and replayed by Trace_ContextInvoke.  What a nested invocation writes must be visible neither
    to the rest of its caller nor to a later sibling.
+O  OPTIONS OF ONE CALL as cells (round 8, Context.tla OptCells): the arguments of expand() / parse() (timeout,
+   expand_invoke, expand_parserfns, pre_expand, templates_to_expand / _to_not_expand / additional_expand /
+   do_not_pre_expand, template_fn / post_template_fn, expand_all, quiet) vary between the pages of a history: writer
+   kinds process one probe text with one option set, reader kinds the same text with the defaults; slowModule (a
+   module that runs 1-2 s) is the reader of the time limit.  Expected: the fresh context.  A difference the model
+   with the deviations TimeLimitKept / CallOptionsKept explains is NAMED by it (which option of which earlier call);
+   a verdict about a kind that depends on wall-clock time is re-executed alone before it is believed.
 """
 from __future__ import annotations
 
@@ -74,6 +81,32 @@ function p.loop(frame) while true do end end
 return p
 """
 MODULE_DATA = "return { n = 1 }\n"
+# the reader of the time limit: spins until the clock of the sandbox (granules of 1 s) has advanced twice, i.e. for
+# 1-2 s of wall-clock time: longer than any small limit of a writer (< 1 s: over at the first tick), far below the
+# default of 60 s
+MODULE_SLOW = """
+local p = {}
+function p.f(frame)
+  local t0 = os.time()
+  local n = 0
+  while os.time() - t0 < 2 do n = n + 1 end
+  return "slow-done"
+end
+return p
+"""
+SMALL_LIMIT = 0.5
+# the probe text of the option kinds: a template, a parser function, an #invoke, a template marked as needing
+# pre-expansion, an undefined template, a failing #invoke (messages), a template with <nowiki>
+PROBE = "a{{T1|x}}b{{#if:1|yes|no}}c{{#invoke:S|global}}d{{Pre}}e{{Undefined template}}f{{#invoke:S|err}}g{{Nw}}h\n* {{T1|\'\'y}}"
+
+
+def _probe_template_fn(name, ht):
+    return "<TF %s %s>" % (name, sorted(ht.items(), key=str)) if name == "T1" else None
+
+
+def _probe_post_template_fn(name, ht, expanded):
+    return "<PT %s %s>" % (name, expanded) if name in ("Pre", "Nw") else None
+
 
 PAGES = {
     "unclosedMarkup": ("parse", "'''bold ''it\n* item [[link|te\n== h ==\n<span>x", {}),
@@ -97,7 +130,42 @@ PAGES = {
     "otherContextWithExtTags": ("other", "", {}),
     "otherContextRedefiningTag": ("other2", "", {}),
     "extTagPage": ("parse", "<foo a=b>x</foo> <hiero>y</hiero> <span>z</span>\n<references>\n<ref name=r>t</ref>\n</references>\n<br>w</br>", {}),
+    # ---- options of one call (Context!OptKinds): writers = the probe text with one option set, readers = defaults ----
+    "optProbe": ("expand", PROBE, {}),
+    "optParseProbe": ("parse", PROBE, {}),
+    "optTimeLimit": ("expand", PROBE, {"timeout": SMALL_LIMIT}),
+    "optNoInvoke": ("expand", PROBE, {"expand_invoke": False}),
+    "optNoParserFns": ("expand", PROBE, {"expand_parserfns": False}),
+    "optPreExpand": ("expand", PROBE, {"pre_expand": True}),
+    "optTemplateSets": ("expand", PROBE, {"pre_expand": True, "templates_to_expand": {"T1", "Nw"}, "templates_to_not_expand": {"Pre"}}),
+    "optTemplateFns": ("expand", PROBE, {"template_fn": _probe_template_fn, "post_template_fn": _probe_post_template_fn}),
+    "optQuiet": ("expand", PROBE, {"quiet": True}),
+    "optAll": ("expand", PROBE, {"expand_invoke": False, "expand_parserfns": False, "pre_expand": True, "templates_to_expand": {"T1"},
+                                 "templates_to_not_expand": {"Pre"}, "template_fn": _probe_template_fn,
+                                 "post_template_fn": _probe_post_template_fn, "quiet": True}),
+    "optParsePreExpand": ("parse", PROBE, {"pre_expand": True, "additional_expand": {"T1"}, "do_not_pre_expand": {"Nw"}}),
+    "optParseHooks": ("parse", PROBE, {"expand_all": True, "template_fn": _probe_template_fn, "post_template_fn": _probe_post_template_fn}),
+    "slowModule": ("expand", "s{{#invoke:Slow|f}}t", {}),
 }
+# kinds whose result depends on wall-clock time: kept rare by the generator (Gen_Context!SlowOK), never in the random
+# histories, and a difference on them is re-executed alone before it is believed
+SLOW_KINDS = ("luaTimeout", "slowModule")
+OPTION_KINDS = sorted(k for k in PAGES if k.startswith("opt"))
+OPT_CELLS = {"otimelimit": "timeout=", "oinvoke": "expand_invoke=", "oparserfns": "expand_parserfns=", "opreexpand": "pre_expand=",
+             "otmplsets": "templates_to_expand= / templates_to_not_expand= / additional_expand= / do_not_pre_expand=",
+             "otmplfns": "template_fn= / post_template_fn=", "oexpandall": "expand_all=", "oquiet": "quiet="}
+
+
+# kind -> cells of Context!OptCells its call sets (only to word the why; the expected values come from TLC)
+_ARG_CELL = {"timeout": "otimelimit", "expand_invoke": "oinvoke", "expand_parserfns": "oparserfns", "pre_expand": "opreexpand",
+             "templates_to_expand": "otmplsets", "templates_to_not_expand": "otmplsets", "additional_expand": "otmplsets",
+             "do_not_pre_expand": "otmplsets", "template_fn": "otmplfns", "post_template_fn": "otmplfns", "expand_all": "oexpandall",
+             "quiet": "oquiet"}
+OPTION_SETS = {k: {_ARG_CELL[a] for a in v[2]} for k, v in PAGES.items()}
+
+
+def _opts_text(kind):
+    return ", ".join("%s=%s" % (a, sorted(v) if isinstance(v, set) else getattr(v, "__name__", v)) for a, v in PAGES[kind][2].items())
 
 
 def make_ctx(path):
@@ -116,6 +184,8 @@ def populate(path):
     ctx.add_page("Template:Nw", 10, body="n<nowiki>[[q]] {{T1|z}}</nowiki>w<!-- c -->")
     ctx.add_page("Template:A", 10, body="{{B}}")
     ctx.add_page("Template:B", 10, body="[{{A}}]")
+    luastub.add_module(ctx, "Slow", MODULE_SLOW)
+    ctx.add_page("Template:Pre", 10, body="[pre {{T1|p}}]", need_pre_expand=True)
     ctx.db_conn.commit()
     ctx.db_conn.close()
 
@@ -203,7 +273,9 @@ INV_MODULES = {
     "Str": 'local p = {}\nfunction p.sset(frame) local b = tostring(string.leaked) string.leaked = "set" return "s=" .. b end\n'
            'function p.sget(frame) return "s=" .. tostring(string.leaked) end\nreturn p\n',
     "F": 'local p = {}\nfunction p.err(frame) error("boom") end\nfunction p.badutf(frame) return "\\255\\254" end\n'
-         'function p.loop(frame) while true do end end\nreturn p\n',
+         'function p.loop(frame) while true do end end\n'
+         # runs until the clock of the sandbox (granules of 1 s) has advanced twice: 1-2 s, longer than INV_TIMEOUT, far below the default
+         'function p.slow(frame) local t0 = os.time() while os.time() - t0 < 2 do end return "w=done" end\nreturn p\n',
     "LD": 'local p = {}\n'
           'local function wr(d) local b = tostring(d.x) pcall(function() d.x = "set" end) return "d=" .. b end\n'
           'function p.ldset(frame) return wr(mw.loadData("Module:LDdata")) end\n'
@@ -273,8 +345,14 @@ INV_SIMPLE = {
     "ldset": ("LD", "ldset"), "ldget": ("LD", "ldget"), "ljset": ("LD", "ljset"), "ljget": ("LD", "ljget"),
     "nofn": ("F", "nofn"), "err": ("F", "err"), "loaderr": ("Bad", "f"), "nomod": ("Nomod", "f"), "nilmod": ("Nil", "f"),
     "synmod": ("Syn", "f"), "badutf": ("F", "badutf"), "timeout": ("F", "loop"),
+    # (round 8) the time limit as an option of the call
+    "lim_peek": ("Ctr", "peek"), "slow": ("F", "slow"), "lim_slow": ("F", "slow"),
 }
-INV_PREFIX = {"bump": "c=", "bump2": "c=", "peek": "c=", "reqbump": "r=", "gset": "g=", "gget": "g=", "rget": "x=", "sset": "s=", "sget": "s=",
+INV_LIMITED = {"timeout", "lim_peek", "lim_slow"}       # ContextInvoke!Limited: the call of these kinds is given timeout=INV_TIMEOUT
+INV_SLOW = {"timeout", "slow", "lim_slow"}              # wait for the clock of the sandbox (seconds)
+# kinds that only make sense with one expand() per invocation (the option set belongs to the CALL)
+INV_CALLS_ONLY = {"page", "lim_peek", "slow", "lim_slow"}
+INV_PREFIX = {"lim_peek": "c=", "slow": "w=", "lim_slow": "w=", "bump": "c=", "bump2": "c=", "peek": "c=", "reqbump": "r=", "gset": "g=", "gget": "g=", "rget": "x=", "sset": "s=", "sget": "s=",
               "ldset": "d=", "ldget": "d=", "ljset": "d=", "ljget": "d="}
 # kinds that occur only as nested steps of a program
 NEST_ONLY = {"tset": ("Tab", "tset"), "tget": ("Tab", "tget"), "view": ("V", "view")}
@@ -502,10 +580,10 @@ def inv_run_one(ctx, title, hist, rendering):
                     ctx.start_page(title + "/%d" % j)
                     out.append("")
                 else:
-                    out.append(ctx.expand(inv_text(kind, "calls"), timeout=INV_TIMEOUT if kind == "timeout" else None))
+                    out.append(ctx.expand(inv_text(kind, "calls"), timeout=INV_TIMEOUT if isinstance(kind, str) and kind in INV_LIMITED else None))
             return out
         text = INV_SEP.join(inv_text(k, rendering) for k in hist)
-        got = ctx.expand(text, timeout=INV_TIMEOUT if "timeout" in hist else None)
+        got = ctx.expand(text, timeout=INV_TIMEOUT if any(k in INV_LIMITED for k in hist if isinstance(k, str)) else None)
         parts = got.split(INV_SEP)
         return parts if len(parts) == len(hist) else ["UNSPLITTABLE " + got[:300]] * len(hist)
     except Exception as e:  # noqa: BLE001
@@ -540,6 +618,23 @@ def inv_worker(chunk):
         finally:
             ctx.db_conn.close()
     return res
+
+
+def _inv_chunks(chunks):
+    return [inv_worker(c) for c in chunks]
+
+
+def inv_pmap(items, chunk):
+    """pmap(inv_worker) in which every history that waits for the clock is a chunk of its own (they spread over the workers)."""
+    slow = [i for i, it in enumerate(items) if any(isinstance(k, str) and k in INV_SLOW for k in it[2])]
+    rest = [i for i in range(len(items)) if i not in set(slow)]
+    groups = [[i] for i in slow] + [rest[j:j + chunk] for j in range(0, len(rest), chunk)]
+    res = pmap(_inv_chunks, [[items[i] for i in g] for g in groups], chunk=1)
+    out = [None] * len(items)
+    for g, r in zip(groups, res):
+        for i, x in zip(g, r):
+            out[i] = x
+    return out
 
 
 def inv_trace_run(histories, progs=()):
@@ -600,6 +695,11 @@ INV_WHY_KEPT = ("; the as-coded model with the deviation EnvKeptOnAbort (the env
                 "_lua_reset_env) predicts exactly the observed outputs")
 
 
+INV_WHY_LIMKEPT = ("; the model with the deviation TimeLimitKept (the time limit given to ONE call expand(..., timeout=t) stays in the Lua "
+                   "runtime and a later call that gives no limit runs under it instead of the default) predicts exactly the observed "
+                   "outputs - the option set of one call must not affect later calls")
+
+
 def invocation_histories(o, tier, gen, demo, dld, demos_nest):
     """gen / demo: TLCResults of Gen_ContextInvoke_<tier>.cfg and Demo_ContextInvoke_envkept.cfg."""
     thorough = tier == "thorough"
@@ -617,13 +717,16 @@ def invocation_histories(o, tier, gen, demo, dld, demos_nest):
     if len(ncases) < 500:
         raise common.TLCError("Gen_ContextInvoke produced only %d nest cases" % len(ncases))
     for name, r in demos_nest.items():
-        o.extra["demo_%s_violates_CaseMeetsDemand" % name] = bool(r.invariant_violated)
+        o.extra["demo_%s_violates_%s" % (name, "MeetsDemand_on_invocation_histories" if name == "timelimit" else "CaseMeetsDemand")] = bool(r.invariant_violated)
         if not r.invariant_violated:
             raise common.TLCError("Demo_ContextInvoke_%s lost its counterexample" % name)
     rng = random.Random(common.seed() * 67 + 909)
-    vkinds = sorted(set(INV_SIMPLE) - {"timeout"}) + ["n_nomod", "n_nilmod", "n_synmod", "n_badutf", "n_nofn", "n_err", "n_loaderr",
+    vkinds = sorted(set(INV_SIMPLE) - INV_SLOW - {"lim_peek"}) + ["n_nomod", "n_nilmod", "n_synmod", "n_badutf", "n_nofn", "n_err", "n_loaderr",
                                                       "n_bump", "t_nomod", "t_badutf", "t_bump", "page"]   # (the loadData kinds are in INV_SIMPLE)
     vh = [[rng.choice(vkinds) for _ in range(rng.randint(5, 12))] for _ in range(400 if thorough else 60)]
+    # (round 8) random histories in which some calls are given a time limit (quick invocations only: nothing waits)
+    rng8 = random.Random(common.seed() * 89 + 911)
+    vh += [[rng8.choice(vkinds + ["lim_peek"] * 8) for _ in range(rng8.randint(5, 12))] for _ in range(60 if thorough else 10)]
     nrng = random.Random(common.seed() * 71 + 907)
     tops = ["gset", "sset", "bump", "reqbump", "gget", "rget", "sget", "peek", "nomod", "err", "n_bump", "n_nomod"]
     vn = [{"pre": [nrng.choice(tops) for _ in range(nrng.choice([0, 0, 1, 2]))], "prog": nest_rand_prog(nrng),
@@ -635,14 +738,16 @@ def invocation_histories(o, tier, gen, demo, dld, demos_nest):
         # the solo behaviour of every kind (own page, fresh context) must match the model: the
         # attribution of a difference to the HISTORY rests on it
         kinds = sorted(set(INV_SIMPLE) | {k for c in cases for k in c["hist"] if k != "page"})
-        solo_items = [(dbdir, "solo-%s-%s" % (k, r), [k], r, None) for k in kinds for r in INV_RENDERINGS]
+        solo_items = [(dbdir, "solo-%s-%s" % (k, r), [k], r, None) for k in kinds for r in INV_RENDERINGS
+                      if r == "calls" or k not in INV_CALLS_ONLY]
+        solo_items.sort(key=lambda it: it[2][0] not in INV_SLOW)
         solo = {}
         for (_, _, h, r, _), (got, _) in zip(solo_items, pmap(inv_worker, solo_items, chunk=1)):
             solo[(h[0], r)] = got[0]
         items = []
         for n, c in enumerate(cases):
             exp = [inv_render(x) if x["k"] != "page" else "" for x in c["out"]]
-            if "page" in c["hist"]:
+            if any(k in INV_CALLS_ONLY for k in c["hist"]):
                 rs = ("calls",)
             elif len(c["hist"]) <= 3 if thorough else (len(c["hist"]) == 2 and c["hist"][1] in INV_PREFIX and c["hist"][0] not in INV_PREFIX):
                 rs = INV_RENDERINGS     # quick: the pairs <failing or nested kind, probe>
@@ -651,7 +756,7 @@ def invocation_histories(o, tier, gen, demo, dld, demos_nest):
             for r in rs:
                 items.append((dbdir, "%d-%s" % (n, r), c["hist"], r, exp))
         # slow (time limit) histories first, small chunks: they spread over the workers
-        items.sort(key=lambda it: "timeout" not in it[2])
+        items.sort(key=lambda it: not any(k in INV_SLOW for k in it[2]))
         # nest cases: all top-level invocations of the case in one text / one expand() per top-level invocation
         nitems = []
         for n, c in enumerate(ncases):
@@ -669,9 +774,21 @@ def invocation_histories(o, tier, gen, demo, dld, demos_nest):
         bg = ThreadPoolExecutor(1)
         f_rv = bg.submit(inv_trace_run, [[inv_abstract(k, t) for k, t in zip(h, got)] for h, (got, _) in zip(vh, vres)],
                          [{"case": c, "got": nest_abstract_case(c, got)} for c, (got, _) in zip(vn, vnres)])
-        results = pmap(inv_worker, items + nitems, chunk=max(1, len(items + nitems) // 128))
+        results = inv_pmap(items + nitems, max(1, len(items + nitems) // 128))
         nresults = results[len(items):]
         results = results[:len(items)]
+        # Timing rule: a history that waits for the clock and differs from the model is executed again ALONE (the
+        # pools are over, the TLC job of the V direction too) before the difference is believed
+        timing = {"executed_again_alone": 0, "not_confirmed": 0}
+        for j, (it, (got, _)) in enumerate(zip(items, results)):
+            if got != it[4] and any(k in INV_SLOW for k in it[2]) and timing["executed_again_alone"] < 12:
+                f_rv.result()
+                timing["executed_again_alone"] += 1
+                results[j] = inv_worker([it])[0]
+                if results[j][0] == it[4]:
+                    timing["not_confirmed"] += 1
+                    o.note_drift({"timing_dependent_difference_not_confirmed": {"history": it[2], "rendering": it[3], "first_run": got}})
+        o.extra["invocation_timing_rechecks"] = timing
     def known_loaddata(origin, hist, rendering, i, got, exp_i):
         """Invocation #i shows what the as-is model with LoadDataTableMutableWithinPage predicts (and the ideal does not)."""
         case = {"origin": origin, "rendering": rendering, "history": hist[: i + 1], "invocation": inv_text(hist[i], rendering),
@@ -681,7 +798,7 @@ def invocation_histories(o, tier, gen, demo, dld, demos_nest):
                          "table is handed out writable and the cache is only cleared by start_page)",
                    ["LoadDataTableMutableWithinPage"], cls="invocation-history:loadData")
 
-    def judge(origin, hist, rendering, i, got, exp_i, again, kept_explains):
+    def judge(origin, hist, rendering, i, got, exp_i, again, kept_explains, limkept_explains=False):
         kind = hist[i]
         case = {"origin": origin, "rendering": rendering, "history": hist[: i + 1], "invocation": inv_text(kind, rendering),
                 "got": got[i][:200], "model": exp_i[:200], "alone_on_a_fresh_page": str(solo.get((kind, rendering)))[:200],
@@ -703,7 +820,9 @@ def invocation_histories(o, tier, gen, demo, dld, demos_nest):
                f"#invoke starts from the initial module state, and the same invocation alone gives exactly that): state left by {where} is visible to it")
         if kept_explains:
             why += INV_WHY_KEPT
-        o.violation(case, why, cls="invocation-history:" + ("EnvKeptOnAbort" if kept_explains else kind))
+        if limkept_explains:
+            why += INV_WHY_LIMKEPT
+        o.violation(case, why, cls="invocation-history:" + ("EnvKeptOnAbort" if kept_explains else "TimeLimitKept" if limkept_explains else kind))
 
     for (_, hid, hist, rendering, exp), (got, again) in zip(items, results):
         o.evaluations += len(hist)
@@ -720,7 +839,8 @@ def invocation_histories(o, tier, gen, demo, dld, demos_nest):
             if got[i] == asis[i]:       # explained by the as-is lifetime of the loadData tables (named deviation)
                 known_loaddata("I/G", hist, rendering, i, got, exp[i])
                 continue
-            judge("I/G", hist, rendering, i, got, exp[i], again, bool(kept) and got == kept)
+            limkept = [inv_render(x) if x["k"] != "page" else "" for x in c.get("limkept", [])]
+            judge("I/G", hist, rendering, i, got, exp[i], again, bool(kept) and got == kept, bool(limkept) and got == limkept)
             break
 
     # ---- nested programs ----
@@ -856,7 +976,7 @@ def invocation_histories(o, tier, gen, demo, dld, demos_nest):
             if a != x and inv_abstract(h[i], got[i]) == a:
                 known_loaddata("I/V", h, "calls", i, got, exp_i)
                 continue
-            judge("I/V", h, "calls", i, got, exp_i, None, bool(vd["keptExplains"]))
+            judge("I/V", h, "calls", i, got, exp_i, None, bool(vd["keptExplains"]), bool(vd.get("limKeptExplains")))
             break
     o.extra["invocation_histories"] = {"G_histories": len(cases), "G_runs": len(items), "renderings": list(INV_RENDERINGS),
                                        "V_histories": len(vh), "kinds": len(kinds) + 1,
@@ -875,33 +995,56 @@ def run(tier: str) -> int:
     # the TLC runs of the invocation-level engine go on in the background meanwhile
     from concurrent.futures import ThreadPoolExecutor
 
-    bg = ThreadPoolExecutor(3)
+    bg = ThreadPoolExecutor(4)
     f_gen = bg.submit(tlc, "Gen_ContextInvoke", "Gen_ContextInvoke_%s.cfg" % ("thorough" if thorough else "quick"), workers=1, timeout=3000)
     f_demo = bg.submit(tlc, "Gen_ContextInvoke", "Demo_ContextInvoke_envkept.cfg", workers=1, check=False)
     f_dld = bg.submit(tlc, "Gen_ContextInvoke", "Demo_ContextInvoke_loaddata.cfg", workers=1, check=False)
-    f_dn = {n: bg.submit(tlc, "Gen_ContextInvoke", "Demo_ContextInvoke_%s.cfg" % n, workers=1, check=False) for n in ("nestshared", "nestmodules")}
-    r = tlc("Gen_Context", "MC_Context_ideal.cfg", workers=8, timeout=1800)
-    o.add_tlc("MC_Context_ideal (NonInterference, all histories <= 4)", r)
-    dmo = tlc("Gen_Context", "Demo_Context_asbuilt.cfg", workers=1, check=False)
-    o.extra["demo_asbuilt_violates_NonInterference"] = bool(dmo.invariant_violated)
-    if not dmo.invariant_violated:
-        raise common.TLCError("Demo_Context_asbuilt lost its counterexample")
+    f_dn = {n: bg.submit(tlc, "Gen_ContextInvoke", "Demo_ContextInvoke_%s.cfg" % n, workers=1, check=False)
+            for n in ("nestshared", "nestmodules", "timelimit")}
+    # (round 8) the model checking of the page-level model and its Demo configs run in the background as well
+    f_mc = bg.submit(tlc, "Gen_Context", "MC_Context_ideal.cfg", workers=8, timeout=1800)
+    f_mco = bg.submit(tlc, "Gen_Context", "MC_Context_options.cfg", workers=2, timeout=1800)
+    f_dmo = {n: bg.submit(tlc, "Gen_Context", "Demo_Context_%s.cfg" % n, workers=1, check=False) for n in ("asbuilt", "timelimit", "calloptions")}
+    t_page = [time.time()]
     r = tlc("Gen_Context", "Gen_Context_known_3.cfg" if thorough else "Gen_Context_known_2.cfg", workers=1, timeout=3000)
+    t_page.append(time.time())
     o.add_tlc("Gen_Context histories", r)
     cases = [c for c in r.cases if c["hist"]]
     rng = random.Random(common.seed() * 61 + 9)
-    kinds = sorted(k for k in PAGES if k != "luaTimeout")
+    kinds = sorted(k for k in PAGES if k not in SLOW_KINDS and k not in OPTION_KINDS)
     extra = []
     for _ in range(150 if thorough else 24):
         extra.append([rng.choice(kinds) for _ in range(rng.randint(6, 30))])
+    # (round 8) further random histories in which the option sets of the calls vary too
+    rng8 = random.Random(common.seed() * 83 + 908)
+    kinds8 = sorted(k for k in PAGES if k not in SLOW_KINDS)
+    for _ in range(60 if thorough else 12):
+        extra.append([rng8.choice(kinds8 if rng8.random() < 0.5 else OPTION_KINDS) for _ in range(rng8.randint(6, 24))])
     with Scratch("c09-") as d:
         dbdir = d / "base"
         dbdir.mkdir()
         populate(dbdir / "pages.db")
         fresh = {k: v[0] for k, v in zip(PAGES, run_many([([k], dbdir) for k in PAGES]))}
+        if fresh["slowModule"][0] != "sslow-donet" or any(fresh["slowModule"][1].values()):
+            raise RuntimeError("the slow module does not finish under the default time limit on a fresh context: %r" % (fresh["slowModule"],))
         results = run_many([(c["hist"], dbdir) for c in cases])
         vres = run_many([(h, dbdir) for h in extra])
+        # Timing rule: a difference on a page whose result depends on wall-clock time (SLOW_KINDS) is believed only
+        # when the history, executed again ALONE (nothing else of this check running), shows it again
+        recheck = {}
+        for hist, res in [(c["hist"], r) for c, r in zip(cases, results)] + list(zip(extra, vres)):
+            if any(k in SLOW_KINDS and res[i] != fresh[k] for i, k in enumerate(hist)) and len(recheck) < 40:
+                recheck.setdefault(tuple(hist), None)
+        if recheck:     # alone: also the TLC jobs in the background have to be over
+            for f in [f_gen, f_demo, f_dld, f_mc, f_mco] + list(f_dn.values()) + list(f_dmo.values()):
+                f.result()
+        for h in recheck:
+            recheck[h] = run_many([(list(h), dbdir)], nproc=1)[0]
+    o.extra["timing_rechecks"] = {"histories_executed_again_alone": len(recheck),
+                                  "differences_not_confirmed": sum(1 for h, r in recheck.items() for i, k in enumerate(h)
+                                                                   if k in SLOW_KINDS and r[i] == fresh[k])}
     known = sorted(o.known)
+    t_page.append(time.time())
     # V: the recorded random histories are replayed through the model by TLC
     with Scratch("c09v-") as dd:
         tf = dd / "h.json"
@@ -909,29 +1052,64 @@ def run(tier: str) -> int:
         rv = tlc("Trace_Context", "t.cfg", cfg_text="SPECIFICATION TSpec\nCONSTANTS\n  Known <- KnownC09\nINVARIANT Emit\nCHECK_DEADLOCK FALSE\n",
                  workers=1, env={"TRACE_FILE": str(tf)}, timeout=1800)
     o.add_tlc("Trace_Context", rv)
-    vmodel = {c["i"] - 1: c["interferes"] for c in rv.cases}
+    vmodel = {c["i"] - 1: (c["interferes"], c["optkept"]) for c in rv.cases}
 
-    def compare(hist, res, interferes, origin):
+    def compare(hist, res, interferes, optkept, origin):
         o.evaluations += len(hist)
         o.traces += 1
         if len(hist) >= 2:
             o.shape(tuple(hist) if len(hist) <= 3 else ("long", len(hist), hash(tuple(hist))))
+        again = recheck.get(tuple(hist))
         for i, kind in enumerate(hist):
             if res[i] == fresh[kind]:
                 continue
             case = {"origin": origin, "history": hist[: i + 1], "page_kind": kind, "page": PAGES[kind][1][:200],
                     "in_history": json.dumps(res[i], default=str)[:500], "fresh_context": json.dumps(fresh[kind], default=str)[:500]}
+            if PAGES[kind][2]:
+                case["options"] = _opts_text(kind)
+            if kind in SLOW_KINDS:
+                if again is None or again[i] == fresh[kind]:
+                    # not executed again (too many) or not confirmed alone: a matter of the load of the machine
+                    o.note_drift({"timing_dependent_difference_not_confirmed": case})
+                    continue
+                case["executed_again_alone"] = json.dumps(again[i], default=str)[:500]
             cells = interferes[i] if interferes is not None else None
             explained = []
             if cells:
                 m = {"lsmeta": "StringMetatableShared", "lretain": "RetainedLibraryTablesShared", "tags": "ExtensionTagsShared"}
                 explained = sorted({m[c] for c in cells if c in m})
-            o.classify(case, f"page kind {kind!r} gives a different result after {hist[:i]!r} than on a fresh context", explained, cls=kind)
+            why = f"page kind {kind!r} gives a different result after {hist[:i]!r} than on a fresh context"
+            kept = sorted(optkept[i]) if optkept is not None and not explained else []
+            if kept:
+                # the model in which options of a call stay in force (TimeLimitKept / CallOptionsKept) says which
+                # option of which earlier call this page can see
+                who = []
+                for c in kept:
+                    js = [j for j in range(i) if c in OPTION_SETS.get(hist[j], ())]
+                    who.append("%s given to the call of page #%d (%s: %s)" % (OPT_CELLS[c], js[-1] + 1, hist[js[-1]], _opts_text(hist[js[-1]]))
+                               if js else OPT_CELLS[c])
+                why += ("; the call of this page was given " + (_opts_text(kind) or "no options (defaults)") + ", and the model in which the "
+                        "options of one call stay in force for later calls (" + ("TimeLimitKept: the time limit of an earlier #invoke is "
+                        "left in the Lua runtime and not replaced by the default" if kept == ["otimelimit"] else "CallOptionsKept") +
+                        ") says this page can see: " + "; ".join(who) + " - option sets given to one call must not affect later calls / pages")
+                case["options_of_earlier_calls_possibly_in_force"] = kept
+            o.classify(case, why, explained, cls=kind + (":option-kept" if kept else ""))
 
     for c, res in zip(cases, results):
-        compare(c["hist"], res, c["interferes"], "G")
+        compare(c["hist"], res, c["interferes"], c["optkept"], "G")
     for j, (h, res) in enumerate(zip(extra, vres)):
-        compare(h, res, vmodel[j], "V")
+        compare(h, res, vmodel[j][0], vmodel[j][1], "V")
+    r = f_mc.result()
+    o.add_tlc("MC_Context_ideal (NonInterference, all histories <= 4 over the kinds without the option kinds)", r)
+    o.add_tlc("MC_Context_options (NonInterference, all histories <= 6 over all kinds incl. the option kinds; VIEW MCView)", f_mco.result())
+    for n, f in f_dmo.items():
+        dmo = f.result()
+        o.extra["demo_%s_violates_NonInterference" % n] = bool(dmo.invariant_violated)
+        if not dmo.invariant_violated:
+            raise common.TLCError("Demo_Context_%s lost its counterexample" % n)
+    t_page.append(time.time())
+    o.extra["page_level_wall_s"] = dict(zip(("Gen_Context", "real_code_histories", "Trace_Context_and_compare"),
+                                            (round(b - a, 1) for a, b in zip(t_page, t_page[1:]))))
     t_inv = time.time()
     g_res, d_res, l_res = f_gen.result(), f_demo.result(), f_dld.result()
     t_wait = time.time() - t_inv
